@@ -4,7 +4,8 @@
 root, then the repository's test suite on the mutants no check alarms on, and read what survives both."""
 import os, re, sys, json, subprocess, tempfile, shutil
 OUT = sys.argv[1]
-EQUIV = len(sys.argv) > 2 and sys.argv[2] == 'equiv'      # behaviour-preserving one-line rewrites: every alarm on one of these is a false alarm
+EQUIV2 = len(sys.argv) > 2 and sys.argv[2] == 'equiv2'
+EQUIV = len(sys.argv) > 2 and sys.argv[2] in ('equiv', 'equiv2')      # behaviour-preserving one-line rewrites: every alarm on one of these is a false alarm
 MODE2 = len(sys.argv) > 2 and sys.argv[2] == 'mode2'      # second operator set: conditions, `?`, argument order
 FILES = ['cadence/src/builder.rs', 'cadence/src/client.rs', 'cadence/src/io.rs', 'cadence/src/types.rs', 'cadence/src/sinks/core.rs',
          'cadence/src/sinks/queuing.rs', 'cadence/src/sinks/udp.rs', 'cadence/src/sinks/unix.rs', 'cadence/src/sinks/spy.rs',
@@ -127,6 +128,22 @@ def main():
                 m_ = re.match(r'^(\s*)let _ = (.+);\s*$', code)
                 if m_:
                     muts.append(('%sdrop(%s);' % (m_.group(1), m_.group(2)), '`let _ = x` as `drop(x)`'))
+                if EQUIV2:
+                    muts = []
+                    neg = {'>': '<=', '<': '>=', '>=': '<', '<=': '>', '==': '!=', '!=': '=='}
+                    m_ = re.match(r'^(\s*)((?:\} ?else )?if) (' + OPND + r') (>=|<=|==|!=|>|<) (' + OPND + r') \{\s*$', code)
+                    if m_:
+                        muts.append(('%s%s !(%s %s %s) {' % (m_.group(1), m_.group(2), m_.group(3), neg[m_.group(4)], m_.group(5)), 'comparison as negated opposite'))
+                    for pat_, rep_, w_ in ((r'\.unwrap_or\(([^()|]+)\)', r'.unwrap_or_else(|| \1)', 'unwrap_or as unwrap_or_else'),
+                                           (r'\.ok_or\(([^()|]+)\)', r'.ok_or_else(|| \1)', 'ok_or as ok_or_else'),
+                                           (r'String::new\(\)', 'String::default()', 'String::default()'),
+                                           (r'Vec::new\(\)', 'Vec::default()', 'Vec::default()'),
+                                           (r'\.map_err\(([A-Za-z_:]+)\)', r'.map_err(|e| \1(e))', 'map_err(f) as closure'),
+                                           (r'\.map\(([A-Za-z_:]+)\)', r'.map(|v| \1(v))', 'map(f) as closure'),
+                                           (r'\(\*\*self\)\.', 'self.as_ref().', 'as_ref for deref'),
+                                           (r'Ok\(\(\)\)', 'Ok(Default::default())', 'unit via Default')):
+                        for m2 in re.finditer(pat_, code):
+                            muts.append((code[:m2.start()] + m2.expand(rep_) + code[m2.end():], w_))
                 for nl_, what_ in muts:
                     if nl_ == code:
                         continue
